@@ -40,7 +40,7 @@ def one(rid):
 
 
 status = {}
-with ThreadPoolExecutor(14) as ex:
+with ThreadPoolExecutor(int(__import__("os").environ.get("KV_JOBS", "14"))) as ex:
     for rid, res in ex.map(one, ids):
         status[rid] = res
         print(('SILENT ' if not res else 'ALARM  '), rid, {k: (v['exit'] if isinstance(v, dict) else v) for k, v in res.items()}, flush=True)
